@@ -31,7 +31,7 @@ func zzRevert(c *ReplicaClient, name, created string) error {
 	if m == nil {
 		return zzmodel.ErrREST
 	}
-	return m.Action("revert", nil)
+	return m.Action("revert", &name)
 }
 
 func zzPrepareRemoveDisk(c *ReplicaClient, disk string) (rest.PrepareRemoveDiskOutput, error) {
